@@ -177,6 +177,9 @@ impl Iterator for ScriptIter {
 struct EndlessIter {
   ctx: Arc<CaseCtx>,
   next: i64,
+  /// report a (huge) upper bound through size_hint, as `0..i64::MAX` would: the iterator
+  /// is endless for every practical purpose either way
+  bounded_hint: bool,
 }
 
 impl Iterator for EndlessIter {
@@ -186,6 +189,13 @@ impl Iterator for EndlessIter {
     let r = V::new(&self.ctx, P::I(self.next));
     self.next = self.next.wrapping_add(1);
     Some(r)
+  }
+  fn size_hint(&self) -> (usize, Option<usize>) {
+    if self.bounded_hint {
+      (usize::MAX, Some(usize::MAX))
+    } else {
+      (0, None)
+    }
   }
 }
 
@@ -397,7 +407,7 @@ impl Env {
         Err(c) => utils::Something::<V>::error(mk_err(*c)).proceed(),
       },
       Src::Repeat(k) => observables::repeat(self.vi(*k)),
-      Src::Endless(a) => observables::from_iter(EndlessIter { ctx, next: *a }),
+      Src::Endless(a) => observables::from_iter(EndlessIter { ctx, next: *a, bounded_hint: a.rem_euclid(2) == 0 }),
       Src::Interval(ms) => {
         observables::interval(Duration::from_millis(*ms), schedulers::new_thread_scheduler()).map(
           move |n: u64| {
